@@ -15,10 +15,10 @@ func init() {
 		DesignRef: "DESIGN.md §5 C50",
 		Level: "Decides that both passes over the input reject a series without timestamp with an error before the timestamp is used, that within a block range every sample with t ≤ ts < t+blockDuration is appended and nothing else, that the shortcut which skips empty block ranges keeps the minimum timestamp seen beyond the current range (so no populated range is skipped), " +
 			"that an appender is committed without error before it is replaced and before the block is flushed, and that the first range starts at or below the smallest timestamp also when that is negative and unaligned.",
-		Note:     "Trusted: go/packages, go/types, go/cfg; linear normaliser; rule tables in checker/c50.go.",
-		Covers:   "cmd/promtool: getMinAndMaxTimestamps, createBlocks (range loop, per-range closure), backfill.",
-		NotCover: "block alignment beyond the first range, label handling, what BlockWriter.Flush writes.",
-		Run:      runC50,
+		Note:           "Trusted: go/packages, go/types, go/cfg; linear normaliser; rule tables in checker/c50.go.",
+		Covers:         "cmd/promtool: getMinAndMaxTimestamps, createBlocks (range loop, per-range closure), backfill.",
+		NotCover:       "block alignment beyond the first range, label handling, what BlockWriter.Flush writes.",
+		Run:            runC50,
 		MinObligations: 14,
 	})
 }
